@@ -67,7 +67,7 @@ def aggregate(mod, results):
     for c in mod.CLAUSES:
         agg[c.name] = {"evals": 0, "hashes": set(), "labels": {}, "samples": [], "failures": {},
                        "skips": {}, "wall": 0.0, "budget_exhausted": False, "exhaustive_total": None,
-                       "hashseeds": set()}
+                       "hashseeds": set(), "values": {}}
     for r in results:
         for name, s in r["clauses"].items():
             a = agg[name]
@@ -85,12 +85,26 @@ def aggregate(mod, results):
                 a["exhaustive_total"] = s["exhaustive_total"]
             if s["evals"]:
                 a["hashseeds"].add(r.get("hashseed"))
+            for h, (val, case) in s.get("values", {}).items():
+                a["values"].setdefault(h, {"case": case, "by": {}})["by"].setdefault(val, []).append(r.get("hashseed"))
             for sig, f in s["failures"].items():
                 g = a["failures"].setdefault(sig, {"count": 0, "msg": f["msg"], "cases": [], "hashseed": r.get("hashseed")})
                 g["count"] += f["count"]
                 g["cases"].extend(f["cases"])
                 g["cases"].sort(key=lambda c: len(json.dumps(c)))
                 del g["cases"][3:]
+    for name, a in agg.items():
+        n_multi = 0
+        for h, v in a["values"].items():
+            if sum(len(x) for x in v["by"].values()) > 1:
+                n_multi += 1
+            if len(v["by"]) > 1:
+                sig = "%s/differs_between_processes" % name
+                g = a["failures"].setdefault(sig, {"count": 0, "msg": "", "cases": [], "hashseed": None})
+                g["count"] += 1
+                g["cases"].append(v["case"])
+                g["msg"] = "same case, different results per PYTHONHASHSEED: %s" % json.dumps(v["by"])[:400]
+        a["cross_compared"] = n_multi
     return agg
 
 
@@ -301,6 +315,8 @@ def write_evidence(mod, pid, tier, vseed, agg, pre, violations, known_matched, w
             "hash_seeds": sorted(x for x in a["hashseeds"] if x is not None),
             "max_shard_wall_s": round(a["wall"], 1),
         }
+        if c.cross_shard:
+            per[c.name]["cases_compared_across_hash_seeds"] = a.get("cross_compared", 0)
         if c.exhaustive:
             per[c.name]["exhaustive_slice_size"] = a["exhaustive_total"]
         for s in a["samples"][:2]:
